@@ -142,6 +142,9 @@ func runMatcherProperty(t *testing.T, prop string) {
 	if prop == "C01" || prop == "C02" || prop == "C09" {
 		runLevelStream(t, rep, rng.Fork(), env.Scale(150, 3000))
 	}
+	if prop == "C04" {
+		c04RunStream(t, rep, rng.Fork(), env.Scale(150, 3000))
+	}
 	if prop == "C09" {
 		c09Frames(t, rep, orc, rng.Fork(), env.Scale(8, 200))
 		c09SourceStream(t, rep, orc, rng.Fork())
